@@ -530,7 +530,12 @@ class EagerEncoder(Encoder):
         """Convert possible design vectors to design variable definitions"""
         design_vars_list = []
         for des_vectors in design_vectors.values():
-            if des_vectors.shape[0] == 0 or des_vectors.shape[1] == 0:
+            if des_vectors.shape[0] == 0:
+                continue
+            if des_vectors.shape[1] == 0:
+                # An existence pattern with matrices but without design variables: all design variables are inactive
+                # there, so they should be marked as conditionally active when merging
+                design_vars_list.append([])
                 continue
 
             # Check if all design vectors are unique
